@@ -1,6 +1,6 @@
 (* Line-oriented entry point of the executable model: run "cmd sexp" = answer line. *)
-From Coq Require Import String Ascii List Bool Arith.
-From Wrap Require Import Base.Str Base.ListX Syntax.Ast Syntax.Sexp Syntax.Codec Syntax.Print Inst.Model Inst.Proj Pybind.Items Pybind.Gen Pybind.Render Matlab.Ids Matlab.Arity Matlab.Files.
+From Coq Require Import String Ascii List Bool Arith NArith.
+From Wrap Require Import Base.Str Base.ListX Syntax.Ast Syntax.Sexp Syntax.Codec Syntax.Print Inst.Model Inst.Proj Pybind.Items Pybind.Gen Pybind.Render Matlab.Ids Matlab.Arity Matlab.Files Xml.Escape Xml.Doc.
 Import ListNotations.
 Open Scope string_scope.
 
@@ -174,6 +174,50 @@ Definition run_mlfiles (x : sexp) : string :=
   | _ => "badshape"
   end.
 
+(* ---- C17 ---- *)
+Fixpoint d_xml (x : sexp) : option xml :=
+  match x with
+  | SList [Atom tag; SList attrs; Atom text; SList children; Atom tail] =>
+    do a <- sequence (map (fun kv => match kv with SList [Atom k; Atom v] => Some (k, v) | _ => None end) attrs);
+    do c <- sequence (map d_xml children);
+    Some (Elem tag a text c tail)
+  | _ => None
+  end.
+Definition e_outcome (o : outcome) : sexp :=
+  match o with Doc s => SList [Atom "doc"; Atom s] | Crash w => SList [Atom "crash"; Atom w] end.
+(* xmldoc (index? ((refid xml)...) ((cls method (args...))...)) -> outcomes of the queries in order, one memory *)
+Definition run_xmldoc (x : sexp) : string :=
+  match x with
+  | SList [idx; SList files; SList queries] =>
+    match d_opt d_xml idx,
+          sequence (map (fun f => match f with SList [Atom r; t] => option_map (fun t' => (r, t')) (d_xml t) | _ => None end) files),
+          sequence (map (fun qy => match qy with
+                                   | SList [Atom c; Atom m; a] => option_map (fun a' => (c, m, a')) (d_list d_str a)
+                                   | _ => None end) queries) with
+    | Some i, Some fs, Some qs =>
+      let cf := fun r => match find (fun p => String.eqb (fst p) r) fs with Some p => Some (snd p) | None => None end in
+      let '(outs, _) := fold_left (fun acc qy =>
+                                     let '(os, mem) := acc in
+                                     let '(cm, a) := qy in
+                                     let '(o, mem') := extract i cf (fst cm) (snd cm) a mem in
+                                     ((os ++ [o])%list, mem')) qs ([], []) in
+      "ok " ++ print (SList (map e_outcome outs))
+    | _, _, _ => "baddecode"
+    end
+  | _ => "badshape"
+  end.
+Definition e_nlist (l : list N) : sexp := SList (map (fun n => Atom (nat_dec (N.to_nat n))) l).
+(* literal (code points...) -> (literal code points) (decoded bytes or none) (utf8 bytes) *)
+Definition run_literal (x : sexp) : string :=
+  match d_list d_nat x with
+  | Some l =>
+    let s := map N.of_nat l in
+    "ok " ++ print (SList [e_nlist (literal s);
+                           match cpp_decode (literal s) with Some b => SList [e_nlist b] | None => SList [] end;
+                           e_nlist (utf8s s); e_bool (forallb plain s)])
+  | None => "baddecode"
+  end.
+
 Definition run (line : string) : string :=
   let '(cmd, rest) := split_cmd line EmptyString in
   match read rest with
@@ -187,6 +231,8 @@ Definition run (line : string) : string :=
     else if String.eqb cmd "mlids" then run_mlids x
     else if String.eqb cmd "mltexts" then run_mltexts x
     else if String.eqb cmd "mlfiles" then run_mlfiles x
+    else if String.eqb cmd "xmldoc" then run_xmldoc x
+    else if String.eqb cmd "literal" then run_literal x
     else if String.eqb cmd "echo" then print x
     else "badcmd"
   end.
